@@ -2,6 +2,7 @@ package flood
 
 const (
 	c12N              = 3
-	c12LateAnnouncers = 2
 	c12Announcers     = 3
+	c12LateN          = 3
+	c12LateAnnouncers = 2
 )
